@@ -20,6 +20,16 @@ import vlib
 from vlib import Inconclusive
 
 KNOWN_ID = "tuple-index-in-edge"
+SHORT = {
+    "tuple-index": "In() keeps one EdgeInfo per source node while Out() keeps one per tuple index",
+    "orphan-callee": "backtrace (summarize-on-demand) links a call node to a callee summary it creates on the fly without "
+                     "registering the call site",
+}
+# construct (as attributed by FlowGraph.tla, field `known`) -> (known-finding id, failure kinds it may explain, pinned program)
+CONSTRUCTS = {
+    "tuple-index": ("tuple-index-in-edge", ("out-edge-not-in-in", "forward-closure-differs"), "pinned/tuple_same_node"),
+    "orphan-callee": ("orphan-callee-summary", ("linked-call-not-among-callsites",), "pinned/orphan_callee_summary"),
+}
 POOL = 4  # processes of this check running at the same time (the machine is shared)
 PINNED = os.path.join(vlib.VERIF, "corpus", "pinned", "C17")
 
@@ -305,23 +315,27 @@ def run(ctx):
             return "#%d" % n
         return clean_desc(d["nodes"][n - 1])
 
-    kf = ctx.known_entry(KNOWN_ID) or local_known_entry()
+    def entry(kid):
+        return ctx.known_entry(kid) or local_known_entry(kid)
+
     grouped = {}
     for f in fails:
         base = f["prog"].split("|")[0]
-        key = (f["kind"], base, node_desc(f, f["a"]), node_desc(f, f["b"]) if f["kind"].endswith(("in-in", "in-out")) else "",
-               f["i"] if f["kind"].endswith(("in-in", "in-out")) else 0, f["known"])
+        edge = f["kind"].endswith(("in-in", "in-out"))
+        key = (f["kind"], base, node_desc(f, f["a"]), node_desc(f, f["b"]) if edge else "", f["i"] if edge else 0, f["known"] or "")
         grouped.setdefault(key, []).append(f)
-    pinned_failed = False
-    known_seen = 0
+    pinned_failed = {}
+    known_seen = {}
     nviol = 0
     suppressed = []
     for key, fl in sorted(grouped.items(), key=lambda kv: str(kv[0])):
-        kind, base, da, db, idx, known = key
-        if known and kind in ("out-edge-not-in-in", "forward-closure-differs") and kf and kf.get("status") == "known":
-            known_seen += len(fl)
-            if base == kf.get("pinned_name", "pinned/tuple_same_node"):
-                pinned_failed = True
+        kind, base, da, db, idx, construct = key
+        c = CONSTRUCTS.get(construct)
+        ent = entry(c[0]) if c else None
+        if c and kind in c[1] and ent and ent.get("status") == "known":
+            known_seen[construct] = known_seen.get(construct, 0) + len(fl)
+            if base == c[2]:
+                pinned_failed[construct] = True
             continue
         f0 = fl[0]
         nviol += 1
@@ -330,20 +344,24 @@ def run(ctx):
             continue
         what = ("%s in %s (%s, snapshot %d/%s and %d more): node %s ; node %s ; index/summary/global %d%s" % (
             kind, base, f0["prog"], f0["seq"], f0["stage"], len(fl) - 1, da, node_desc(f0, f0["b"]), f0["i"],
-            " [matches the tuple-index construct, but that finding is not recorded as known]" if known else ""))
+            (" [matches the construct %s, but that finding is not recorded as known]" % construct) if construct else ""))
         ctx.violation(what, {"failures.json": fl[:50]}, key="%s/%s/%s/%s/%s" % (kind, base, da, db, idx))
     if suppressed:
         ctx.violation("%d further distinct inconsistencies (kinds: %s)" % (
             len(suppressed), sorted({k[0] for k in suppressed})), {"keys.json": [list(map(str, k)) for k in suppressed[:500]]},
             key="further-inconsistencies")
-    if pinned_failed:
-        ctx.known(KNOWN_ID, "%s: In() keeps one EdgeInfo per source node while Out() keeps one per tuple index; pinned input "
-                            "corpus/pinned/C17/tuple_same_node still loses an index on the incoming side (%d occurrences in "
-                            "this run's snapshots)" % (KNOWN_ID, known_seen))
-    elif kf and kf.get("status") == "known" and known_seen:
-        # the construct fails elsewhere although the pinned input passes: not attributable
-        ctx.violation("tuple-index construct fails in the corpus (%d occurrences) although the pinned input passes" % known_seen,
-                      {"failures.json": [f for f in fails if f["known"]][:50]}, key="tuple-construct-unpinned")
+    for construct, (kid, _, pname) in CONSTRUCTS.items():
+        ent = entry(kid)
+        if not ent or ent.get("status") != "known":
+            continue
+        if pinned_failed.get(construct):
+            ctx.known(kid, "%s: %s; pinned input corpus/%s still fails (%d occurrences in this run's snapshots)" % (
+                kid, SHORT[construct], pname.replace("pinned/", "pinned/C17/"), known_seen.get(construct, 0)))
+        elif known_seen.get(construct):
+            # the construct fails elsewhere although the pinned input passes: not attributable
+            ctx.violation("construct %s fails in the corpus (%d occurrences) although its pinned input passes" % (
+                construct, known_seen[construct]), {"failures.json": [f for f in fails if f["known"] == construct][:50]},
+                key="unpinned/" + construct)
     # the benign twin must be clean (it is part of the pinned directory)
     if not any(s["prog"].startswith("pinned/tuple_distinct_nodes") for s in stats):
         raise Inconclusive("benign twin of the pinned input was not analysed")
@@ -383,11 +401,11 @@ def run(ctx):
                            rule="one case = one snapshot of the linked graph (program x tool x eager/on-demand x stage)")
 
 
-def local_known_entry():
+def local_known_entry(kid=KNOWN_ID):
     """known_findings.json is assembled by the lead from known_findings.d; fall back to the per-property file"""
     p = os.path.join(vlib.VERIF, "known_findings.d", "C17.json")
     if os.path.exists(p):
         for e in json.load(open(p)):
-            if e.get("id") == KNOWN_ID:
+            if e.get("id") == kid:
                 return e
     return None
